@@ -171,7 +171,7 @@ def race_reports(log):
     return reps
 
 
-def run_harness(name, tier, seed, arg=None, shards=1, race=False):
+def run_harness(name, tier, seed, arg=None, shards=1, race=False, timeout=3600):
     """runs the Go harness (in `shards` parallel processes; direct-call cases are only emitted by shard 0)"""
     d = tempfile.mkdtemp(prefix='verif-%s-' % name)
     env = dict(GOENV, GOMEMLIMIT='3GiB')
@@ -190,12 +190,17 @@ def run_harness(name, tier, seed, arg=None, shards=1, race=False):
     rc, log = 0, ''
     recs = []
     seen = set()
+    deadline = time.time() + timeout
     for p, out in procs:
         try:
-            so, _ = p.communicate(timeout=3 * 3600)
+            so, _ = p.communicate(timeout=max(1, deadline - time.time()))
         except subprocess.TimeoutExpired:
             p.kill()
-            so = 'timeout'
+            try:
+                so, _ = p.communicate(timeout=10)
+            except Exception:
+                so = ''
+            so = (so or '') + '\nharness timeout after %ds' % timeout
         if p.returncode != 0:
             rc = p.returncode
             log += so[-3000:] if not race else so[-60000:]
@@ -254,13 +259,13 @@ def match_known(prop, v, known):
     return None
 
 
-def evaluate(prop, harness_names, tier, seed, stats):
+def evaluate(prop, harness_names, tier, seed, stats, timeout=3600):
     """run implementation + model on the tier's cases; returns (violations, corr_breaks, harness_problem)"""
     c = CHECKS[prop]
     violations, corr = [], []
     problem = None
     for name in harness_names:
-        rc, recs, log, wall = run_harness(name, tier, seed, shards=c.get('shards', 1), race=c.get('race', False))
+        rc, recs, log, wall = run_harness(name, tier, seed, shards=c.get('shards', 1), race=c.get('race', False), timeout=timeout)
         if c.get('race'):
             pat = re.compile(c.get('race_filter', '.'))
             for rep in race_reports(log):
@@ -387,11 +392,11 @@ def check(prop, tier, seed, replay=None):
 
     # correspondence breaks / broken obligations -> search for a failing input at thorough depth
     if (corr or broken) and not violations and have_driver:
-        notes.append('search: obligations or correspondence broken, exploring at thorough depth')
-        for k in range(3):
-            s2 = (seed * 1000003 + k * 7919 + 17) % (2**63)
+        notes.append('search: obligations or correspondence broken; exploring with three more seeds, then at thorough depth (10 min budget)')
+        plan = [('quick', (seed * 1000003 + k * 7919 + 17) % (2**63), 900) for k in range(3)] + [('thorough', (seed * 1000003 + 31) % (2**63), 600)]
+        for stier, s2, tmo in plan:
             sstats = new_stats()
-            v2, c2, _ = evaluate(prop, c['harness'], 'thorough', s2, sstats)
+            v2, c2, _ = evaluate(prop, c['harness'], stier, s2, sstats, timeout=tmo)
             stats['evaluations'] += sstats['evaluations']
             if v2:
                 violations = v2
